@@ -63,6 +63,7 @@ class PyBoard:
     def __init__(self, nick="Lab", m1=False, m2=False, res=1, volt=300):
         self.ram = [0] * 32
         self.nick, self.m1, self.m2, self.res, self.volt = nick, m1, m2, res, volt
+        self.p1 = self.p2 = 0
 
     def receive(self, text):
         f = text.split(",")
@@ -72,6 +73,11 @@ class PyBoard:
                 self.ram[int(f[2])] = int(f[1])
             elif n == "ST":
                 self.nick = text[3:]
+            elif n == "SM" and len(f) == 4:
+                self.p1 += int(f[2])
+                self.p2 += int(f[3])
+            elif n == "CS":
+                self.p1 = self.p2 = 0
             elif n == "EM" and len(f) == 3:
                 e1, e2 = int(f[1]), int(f[2])
                 self.m1, self.m2 = e1 != 0, e2 != 0
@@ -90,7 +96,7 @@ class PyBoard:
         if n == "QE":
             return {"vals": [RES_CODE[self.res] if self.m1 else 0, RES_CODE[self.res] if self.m2 else 0], "s": ""}
         if n == "QS":
-            return {"vals": [120, -45], "s": ""}
+            return {"vals": [self.p1, self.p2], "s": ""}
         if n == "QC":
             return {"vals": [394, self.volt], "s": ""}
         if n == "PI":
